@@ -151,6 +151,10 @@ Definition dir_guard15 (e : env) (fuel : nat) (jobs : list job) (jb : job) (to_d
   && forallb (fun r => Nat.leb (length (filter (fun w => nm w r) ws)) 1) rs
   && forallb (fun x =>
        let '(w, r, h) := x in
+       (* K_map_ctor_from_tag: FromX matches the source constructor parameters without the tag map *)
+       (to_dir || negb (al_ctor w && negb (al_setter w))
+        || match tm_get tm (l_name (al_leaf w)) with None => true | Some _ => false end)
+       &&
        (* K_map_ctor_arg_unguarded: a constructor argument is read without nil guard *)
        (negb (al_ctor w) || match h with SMap _ _ _ _ | SEach _ _ _ _ => true | _ => match l_hops (al_leaf r) with [] => true | _ => false end end)
        &&
